@@ -549,7 +549,8 @@ def plan(tier, seed):
     return {'tasks': tasks,
             'bounds': {'operations': len(O.OPS), 'argument_catalogs': 'small' if q else 'medium', 'histories': 'all call sequences of depth <= 2 over all operations, depth <= 3 over {} core operations, on a pool of 11 objects; operands of a step limited to <= 6 states (PDA 4), <= 12 rules / 6 variables, <= 12 expression nodes'.format(len(CORE_OPS)),
                        'hash_seeds': 3 if q else 16, 'logging': 'every instance with logging off and on'},
-            'exhaustive': True,
+            'exhaustive': False,
+            'explanation': 'layer (b) is exhaustive: every call sequence up to the stated depth over the stated pool is executed (explicit-state search with the hidden library state in the state key). Layers (a) and (c) run over argument CATALOGS that are fixed arithmetic progressions through the spaces of mc/spaces.py and over a finite list of hash seeds; they are complete for those catalogs only. Every case was executed on the real code from the working tree.',
             'rule': '(a) every operation x every instance of its argument catalog: canonical argument snapshot before = after, result valid, same result with logging on; (b) breadth-first search over call sequences (results join the pool): pool unchanged, result = result of the same call on equal arguments in a pristine state; (c) a fixed battery executed in fresh processes under each PYTHONHASHSEED, digests must agree. states = instances + canonical history states',
             'assumptions': ['generality over set orders rests on the scheduler runs of C04, C06, C08, C15, C20; here a finite set of hash seeds is enumerated',
                             'which witness a simulator returns is left open (not compared)', 'pristine state = module globals / function defaults / class attributes as right after import', 'pda_epsilon_closure_max_iterations is set to {} for this check'.format(PDA_LIMIT)]}
